@@ -315,8 +315,9 @@ def visit_time_ranges(vobject_item: vobject.base.Component, child_name: str,
             if duration is not None:
                 original_duration = duration = duration.value
 
+            # The recurrence set of an all-day event yields datetimes
+            dtstart_is_datetime = isinstance(child.dtstart.value, datetime)
             for dtstart in dtstarts:
-                dtstart_is_datetime = isinstance(dtstart, datetime)
                 dtstart = date_to_datetime(dtstart)
 
                 if dtend is not None:
@@ -459,8 +460,9 @@ def visit_time_ranges(vobject_item: vobject.base.Component, child_name: str,
                 else:
                     dtstarts = (dtstart,)
 
+                # The recurrence set of an all-day journal yields datetimes
+                dtstart_is_datetime = isinstance(child.dtstart.value, datetime)
                 for dtstart in dtstarts:
-                    dtstart_is_datetime = isinstance(dtstart, datetime)
                     dtstart = date_to_datetime(dtstart)
 
                     if dtstart_is_datetime:
